@@ -159,12 +159,12 @@ def ranked_evaluator(rule):
     return core.PreConverted(conv.RankedToCondorcetVotes(), cd.EVALUATORS[rule])
 
 
-def gen_ranked_profile(rng):
-    m = rng.randint(3, 5)
+def gen_ranked_profile(rng, big=False):
+    m = rng.randint(5, 6) if big else rng.randint(3, 5)
     ids = list(range(1, m + 1))
     prof = {}
-    short = rng.random() < 0.3          # every ballot truncated: an added ballot can be longer than all existing ones
-    for _ in range(rng.randint(2, 7)):
+    short = rng.random() < 0.3 and not big   # every ballot truncated: an added ballot can be longer than all existing ones
+    for _ in range(rng.randint(4, 9) if big else rng.randint(2, 7)):
         perm = ids[:]
         rng.shuffle(perm)
         if short:
@@ -205,6 +205,12 @@ def moved(prof, bi, b2):
 
 def upward_moves(b, w):
     if w not in b:
+        # an unranked candidate counts as ranked below everybody on the ballot (last for the positional scorers, never
+        # reached by Bucklin, unranked_at_bottom for the pairwise rules): ranking it anywhere is an upward move
+        yield b + [w]
+        if len(b) > 1:
+            yield b[:len(b) // 2] + [w] + b[len(b) // 2:]
+        yield [w] + b
         return
     i = b.index(w)
     if i == 0:
@@ -274,14 +280,27 @@ def schulze_known_class(case, io, mo):
             return None          # a path out of the winner weakened / into it strengthened: NOT the known class
         if P2.get((x, w), 0) > P2.get((w, x), 0):
             return None          # the old winner is path-defeated: a different (unexpected) failure
+
+    # ... and the failure must be the one the path-win COUNT of the true strongest paths produces: the reference count makes w
+    # the sole leader before the move and not after it (a failure the true table does not explain is a violation)
+    def ref_sole(P):
+        wins = {a: sum(1 for x in cs if x != a and P.get((a, x), 0) > P.get((x, a), 0)) for a in cs}
+        top = max(wins.values())
+        lead = [a for a in cs if wins[a] == top]
+        return lead[0] if len(lead) == 1 else None
+    if ref_sole(P1) != w or ref_sole(P2) == w:
+        return None
     return 'C17-schulze-path-win-count'
 
 
-def sole_winner_ranked(ctx, stream, count, rng):
+def sole_winner_ranked(ctx, stream, count, rng, beatpath=False):
     bad = n = 0
+    pairwise = [r for r in RANKED_RULES if r not in ADDITIVE and r not in ('bucklin', 'oklahoma')]
     for _ in range(count):
-        prof = gen_ranked_profile(rng)
-        rule = rng.choice(RANKED_RULES + ['modified_borda', 'modified_borda', 'sequence', 'fixed_top'])
+        big = rng.random() < 0.25          # 5-6 candidates, many ballot types: long beat-paths and top cycles (pairwise rules)
+        prof = gen_beatpath_profile(rng) if beatpath else gen_ranked_profile(rng, big)
+        rule = (rng.choice(pairwise + ['schulze'] * len(pairwise)) if beatpath else rng.choice(pairwise) if big
+                else rng.choice(RANKED_RULES + ['modified_borda', 'modified_borda', 'sequence', 'fixed_top']))
         r0 = common.call_impl(lambda: ranked_evaluator(rule).evaluate(py_ranked(prof), 1), 10)
         ctx.evaluations += 1
         ctx.dist['stream:' + stream] += 1
@@ -337,13 +356,24 @@ def sole_winner_ranked(ctx, stream, count, rng):
     ctx.streams[stream] = dict(cases=n, deviations=bad)
 
 
+def gen_beatpath_profile(rng):
+    """six candidates, strict complete rankings, a handful of voters: close pairwise contests, top cycles and long beat-paths"""
+    ids = list(range(1, 7))
+    prof = {}
+    for _ in range(rng.randint(4, 9)):
+        perm = ids[:]
+        rng.shuffle(perm)
+        prof[tuple(perm)] = prof.get(tuple(perm), 0) + 1
+    return [[list(b), w] for b, w in prof.items()]
+
+
 def sole_winner_cardinal(ctx, stream, count, rng):
     import votelib.evaluate.core as core, votelib.convert as conv, votelib.evaluate.cardinal as card
     bad = n = 0
     for _ in range(count):
         m = rng.randint(3, 5)
         ids = list(range(1, m + 1))
-        kind = rng.choice(['approval', 'sav', 'score_sum', 'score_sum_unscored0'])
+        kind = rng.choice(['approval', 'sav', 'score_sum', 'score_sum_unscored0', 'score_sum_unscored_min'])
         ctx.evaluations += 1
         ctx.dist['stream:' + stream] += 1
         if kind in ('approval', 'sav'):
@@ -361,10 +391,10 @@ def sole_winner_cardinal(ctx, stream, count, rng):
             prof = {}
             for _ in range(rng.randint(2, 7)):
                 cs = rng.sample(ids, rng.randint(1, m))
-                b = tuple(sorted((k, rng.randint(0, 5)) for k in cs))
+                b = tuple(sorted((k, rng.randint(1 if kind.endswith('min') else 0, 5)) for k in cs))
                 prof[b] = prof.get(b, 0) + rng.randint(1, 4)
             prof = [[[list(x) for x in b], w] for b, w in prof.items()]
-            ev = card.ScoreVoting('sum', unscored_value=(0 if kind.endswith('0') else None))
+            ev = card.ScoreVoting('sum', unscored_value=(0 if kind.endswith('0') else 'min' if kind.endswith('min') else None))
             py = lambda p: {frozenset((cname(k), s) for k, s in b): w for b, w in p}     # noqa
             def moves(b, w):     # noqa
                 for i, (k, s) in enumerate(b):
@@ -455,6 +485,7 @@ def explore(ctx, widen=1):
                                                       c01.gen_zero_caps(rng, ctx.n(300, 3000) * widen)))
     votes_checks(ctx, 'votes-random', itertools.chain(c01.gen_random(rng, ctx.n(1500, 20000) * widen), c01.gen_ties(rng, ctx.n(600, 8000) * widen)), rng)
     sole_winner_ranked(ctx, 'sole-winner-ranked', ctx.n(8000, 60000) * widen, rng)
+    sole_winner_ranked(ctx, 'sole-winner-beatpath', ctx.n(3000, 20000) * widen, rng, beatpath=True)
     sole_winner_cardinal(ctx, 'sole-winner-cardinal', ctx.n(1500, 15000) * widen, rng)
 
 
